@@ -408,6 +408,28 @@ def run(ctx):
                                "command": f"check-express -B -i downcast {c.path()}", "switches": [["B", None], ["i", "downcast"]],
                                "injected": {"class": c.cls, "expect": c.expect, "note": c.note}})
                 break
+    # with / without a switch: `-w X` / `-i X` must change only diagnostics of class X.  True from the second switch on
+    # (C20_switch_with_without); the FIRST switch also drops main's `if( no_warnings ) ERRORset_all_warnings( 1 )`, so every warning of
+    # every other class appears (C20_first_switch_enables_other_classes_witness) — put to the tool here
+    wc_ = X.Case("first_switch", b"SCHEMA s;\nFUNCTION f(a : INTEGER; b : INTEGER) : INTEGER;\n  RETURN (a);\nEND_FUNCTION;\n"
+                 b"ENTITY e;\n  x : INTEGER;\nDERIVE\n  d : INTEGER := f(x);\nEND_ENTITY;\nEND_SCHEMA;\n", [], "wrong-argument-count",
+                 [("WRONG_ARG_COUNT", ["f", "1", "2"])], "accept", True)
+    o0 = observed(X.run_tool(b, "check-express", wc_, [], ctx.work), table)
+    for o_ in ("w", "i"):
+        o1 = observed(X.run_tool(b, "check-express", wc_, [(o_, "downcast")], ctx.work), table)
+        o2 = observed(X.run_tool(b, "check-express", wc_, [("i", "limits"), (o_, "downcast")], ctx.work), table)
+        o3 = observed(X.run_tool(b, "check-express", wc_, [("i", "limits")], ctx.work), table)
+        ctx.count(3, key=("first-switch", o_))
+        other = lambda ob: sorted(str(d) for d in ob["diags"] if table.cls(d[0]) != "downcast")
+        if other(o2) != other(o3) and not ctx.violations:
+            ctx.violation("switch-not-local", f"`-i limits -{o_} downcast` vs `-i limits`: diagnostics outside class downcast differ: {other(o2)} vs {other(o3)}",
+                          {"input_text": wc_.data.decode(), "input_hex": wc_.data.hex(), "input_file": wc_.path(), "switches": [["i", "limits"], [o_, "downcast"]]})
+        if other(o1) != other(o0) and not ctx.violations:
+            ctx.violation("first-switch-enables-all-warnings",
+                          f"`check-express -{o_} downcast {wc_.path()}` prints {other(o1)}; without the switch: {other(o0)} — the diagnostic is not of "
+                          "class downcast",
+                          {"input_text": wc_.data.decode(), "input_hex": wc_.data.hex(), "input_file": wc_.path(),
+                           "command": f"check-express -{o_} downcast {wc_.path()}", "switches": [[o_, "downcast"]]})
     # unknown class: usage + exit 2, nothing about the file
     mc = X.Case("u", b"SCHEMA s;\nEND_SCHEMA;\n", [], "valid", [], "accept")
     r = X.run_tool(b, "check-express", mc, [("w", "no_such_class")], ctx.work)
